@@ -81,11 +81,18 @@ package stat
 //@   requires ctx != nil && ctx.Resource != nil
 //@   ensures[binds-node-of-resource] ctx.StatNode != nil && typeis(ctx.StatNode, "*core/stat.ResourceNode") && dynptr(ctx.StatNode) == ref(resNodeMap[ctx.Resource.name]) && dynptr(ctx.StatNode) != 0
 
-// the node registry: one node per resource name, created on first use (constructor chain not under contract)
-//@ func GetOrCreateResourceNode(resource, resourceType) r
+// the node constructor (window arrays: unsafe pointer arithmetic, not under contract): a new node nobody else holds
+//@ func NewResourceNode(resourceName, resourceType) r
 //@   assumed
-//@   ensures r != nil && allocated(r) && resNodeMap[resource] == r && (old(resNodeMap[resource]) != nil ==> r == old(resNodeMap[resource]))
+//@   ensures r != nil && fresh(r)
+//@   modifies nothing
+
+// the node registry: one node per resource name, created on first use. What is returned is the node REGISTERED for the
+// resource — also when another thread registered one between this thread's lookup and its taking the write lock
+// (what it knew about the registry is stale then): every entry of a resource is accounted on the same node (C01)
+//@ func GetOrCreateResourceNode(resource, resourceType) r
+//@   ensures[returns-the-registered-node]{C01,C02,C15} r != nil && allocated(r) && resNodeMap[resource] == r
 //@   modifies mapof(resNodeMap)
 
 // ---- C15: the resource-node registry is only touched under its lock
-//@ guarded resNodeMap by rnsMux insert-once {C15}
+//@ guarded resNodeMap by rnsMux insert-once {C01,C15}
